@@ -625,6 +625,13 @@ func (r *Reg) Preamble() string {
 	for _, n := range r.ufunOrder {
 		b.WriteString(r.ufuns[n] + "\n")
 	}
+	return b.String()
+}
+
+// AxiomsText: registered axioms (facts about package-level variables, ...); they may
+// mention the initial heaps, so they are emitted after the heap declarations.
+func (r *Reg) AxiomsText() string {
+	var b strings.Builder
 	for _, a := range r.axioms {
 		b.WriteString(a + "\n")
 	}
